@@ -2077,8 +2077,6 @@ class LLParser:
                             follow_sets[cur_symbol].add(next_symbol)
                         else:
                             follow_sets[cur_symbol].update(first_sets[next_symbol])
-                            if next_symbol in nullables:
-                                follows_deps[cur_symbol].add(next_symbol)
                         if next_symbol not in nullables:
                             break
                     else:
